@@ -15,7 +15,8 @@ VERSIONS = ["1.1", "1.0"]
 CONNS = [None, "close", "Close", "keep-alive", "Keep-Alive", "close, x", "x, close", "keep-alive, x", "x,keep-alive", "x"]
 METHODS = ["GET", "HEAD", "POST", "OPTIONS"]
 BODIES = ["none", "cl", "cl0", "chunked"]
-HANDLERS = ["buffered", "streamed", "early", "earlyflush", "s304", "s204flush"]
+HANDLERS = ["buffered", "streamed", "early", "earlyflush", "s304", "s204flush", "ownconn", "shortcl", "raw", "r404"]
+_PINGS = [0]
 PING = b"GET /ping HTTP/1.1\r\nHost: h\r\n\r\n"
 
 
@@ -33,6 +34,22 @@ def make_app():
             self.flush()
             self.write("llo")
             self.finish()
+        get = head = post = options = go
+
+    class OwnConn(web.RequestHandler):
+        """the application puts a Connection header of its own on the response (a relaying handler): the server's
+        announcement of a close must still reach an HTTP/1.1 client"""
+        def go(self):
+            self.set_header("Connection", "keep-alive")
+            self.write("hello")
+        get = head = post = options = go
+
+    class ShortCL(web.RequestHandler):
+        """promises 10 bytes and finishes after 5: the response is not properly delimited, the server has to close, and
+        the pipelined request behind it must not be run on the dead connection"""
+        def go(self):
+            self.set_header("Content-Length", "10")
+            self.write("hello")
         get = head = post = options = go
 
     class S304(web.RequestHandler):
@@ -77,10 +94,27 @@ def make_app():
 
     class Ping(web.RequestHandler):
         def get(self):
+            _PINGS[0] += 1
             self.write("pong")
 
-    return web.Application([("/buffered", Buffered), ("/streamed", Streamed), ("/early", Early), ("/earlyflush", EarlyFlush), ("/s304", S304), ("/s204flush", S204Flush),
-                            ("/ping", Ping)])
+    def raw(request):
+        # the documented low-level interface (tornado.routing docs): the target answers through HTTPConnection itself
+        from tornado import httputil
+        request.connection.write_headers(httputil.ResponseStartLine("HTTP/1.1", 200, "OK"),
+                                         httputil.HTTPHeaders({"Content-Type": "text/plain"}))
+        if request.method != "HEAD":
+            request.connection.write(b"he")
+            request.connection.write(b"llo")
+        request.connection.finish()
+
+    return _route(raw, web.Application([("/buffered", Buffered), ("/streamed", Streamed), ("/early", Early), ("/earlyflush", EarlyFlush), ("/s304", S304), ("/s204flush", S204Flush), ("/ownconn", OwnConn), ("/shortcl", ShortCL),
+                            ("/ping", Ping)]))
+
+
+def _route(raw, app):
+    from tornado.routing import RuleRouter, Rule, PathMatches
+    # /r404 matches no rule: RuleRouter's built-in 404 delegate answers (no Content-Length, version in the start line)
+    return RuleRouter([Rule(PathMatches("/raw"), raw), Rule(PathMatches("/(?!r404).*"), app)])
 
 
 def request_bytes(version, conn, method, body, handler):
@@ -102,6 +136,8 @@ def request_bytes(version, conn, method, body, handler):
 def decide(version, conn, method, body, nka, handler):
     """-> (verdict, why) with verdict in KEEP / CLOSE / EITHER."""
     tokens = [t.strip().lower() for t in conn.split(",")] if conn is not None else []
+    if handler == "shortcl" and method != "HEAD":
+        return "CLOSE", "response-not-properly-delimited"
     if nka:
         return "CLOSE", "no_keep_alive"
     if version == "1.1":
@@ -117,7 +153,7 @@ def decide(version, conn, method, body, nka, handler):
         if body == "none" and method not in ("GET", "HEAD"):
             # "delimited request body" = Content-Length or chunked framing, or a method that never carries a body
             return "CLOSE", "1.0-request-body-not-delimited"
-        if handler in ("streamed", "earlyflush") and method != "HEAD":
+        if handler in ("streamed", "earlyflush", "raw", "r404") and method != "HEAD":
             return "CLOSE", "1.0-response-not-self-delimiting"
         if handler == "earlyflush":
             return "EITHER", "1.0-response-started-before-request-read"
@@ -131,6 +167,7 @@ def decide(version, conn, method, body, nka, handler):
 def execute(app, case, segs=None):
     version, conn, method, body, nka, handler = case
     data = request_bytes(version, conn, method, body, handler) + PING
+    _PINGS[0] = 0
     with World() as w:
         c = ServerConn(w, app, no_keep_alive=nka)
         if segs == "blocked-response":
@@ -151,21 +188,28 @@ def execute(app, case, segs=None):
         errlogs = [(r[1], r[2][:60], r[3]) for r in w.logs.records if r[0] != "tornado.access" and r[1] in ("ERROR", "CRITICAL")]
         c.eof()
         w.pump()
-    return out, closed, errlogs
+    return out, closed, errlogs, _PINGS[0]
 
 
 def judge(case, obs):
     version, conn, method, body, nka, handler = case
-    out, closed, errlogs = obs
+    out, closed, errlogs, pings = obs
     bad = []
     verdict, why = decide(*case)
+    if why == "response-not-properly-delimited":
+        if not closed:
+            bad.append(("open-after-broken-response", "the response was cut short but the connection stays open"))
+        if pings or b"pong" in out:
+            bad.append(("request-run-on-closed-connection", "the pipelined request was run %d time(s) after the server "
+                        "closed the connection (wire %r)" % (pings, out[-40:])))
+        return bad, verdict, why
     rs, probs = read_responses(out, [method, "GET"], closed)
     hard = [p for p in probs if not p.startswith("missing response for")]
     if hard or not rs:
         bad.append(("framing:" + (hard[0] if hard else "none")[:40], "problems %r wire %r" % (probs, out[:120])))
         return bad, verdict, why
     kept = len(rs) == 2
-    if handler == "earlyflush" and method != "HEAD" and first_body(rs) != b"hello":
+    if handler in ("earlyflush", "raw") and method != "HEAD" and first_body(rs) != b"hello":
         bad.append(("early-flush-body", "response body %r" % (first_body(rs),)))
     if kept and (rs[1].code != 200 or rs[1].body != b"pong"):
         bad.append(("probe-corrupted", "second response %r %r" % (rs[1].code, rs[1].body[:20])))
@@ -182,10 +226,12 @@ def judge(case, obs):
             pass        # the decision is taken after the headers were sent (assumption)
         else:
             bad.append(("close-not-announced:" + why, "HTTP/1.1 connection closed without 'Connection: close' (%r)" % ch))
-    if not kept and ch == b"keep-alive":
+    if not kept and ch == b"keep-alive" and not (handler == "ownconn" and version == "1.0"):
         bad.append(("keep-alive-ack-then-close:" + why, "answered 'Connection: Keep-Alive' and closed"))
     if kept and ch == b"close":
         bad.append(("close-announced-but-kept", "'Connection: close' sent but the next request was served"))
+    if pings != (1 if kept else 0):
+        bad.append(("probe-runs", "probe handler ran %d time(s), answered=%r" % (pings, kept)))
     if errlogs:
         bad.append(("error-log", repr(errlogs[:2])))
     return bad, verdict, why
@@ -206,7 +252,9 @@ class C03(Check):
             "'close, x', 'x, close', 'keep-alive, x', 'x,keep-alive', x} x method {GET, HEAD, POST, OPTIONS} x request body "
             "{none, Content-Length 5, Content-Length 0, chunked} x no_keep_alive x handler {buffered, streamed "
             "with flush, stream_request_body handler finishing in prepare, stream_request_body handler flushing in prepare "
-            "and finishing after the body, 304 response, 204 response flushed before finish}, followed by a pipelined probe request; "
+            "and finishing after the body, 304 response, 204 response flushed before finish, Content-Length larger than the body, "
+            "a RuleRouter callable target answering through HTTPConnection.write_headers with its own start line, "
+            "RuleRouter's built-in 404}, followed by a pipelined probe request; "
             "thorough adds every single cut of the byte stream; state = one (case, segmentation) execution; "
             "non-trivial = cases where the reference says CLOSE or the Connection header is list-valued")
     claim = ("For every case the observed persistence (probe answered vs connection closed) must equal the "
@@ -218,6 +266,9 @@ class C03(Check):
                    "when the request body is empty, HTTP/1.0 HEAD response started before the request was read",
                    "'delimited request body' on HTTP/1.0 = Content-Length or chunked framing, or a method that never "
                    "carries a body (GET, HEAD); any other method without framing must close",
+                   "a 'Connection: keep-alive' response header set by the application itself on an HTTP/1.0 response is the "
+                   "application's statement, not the server's acknowledgement (not asserted); towards HTTP/1.1 the "
+                   "server's 'Connection: close' must replace it",
                    "a handler that finishes before the body was read decides to close after its headers were sent: "
                    "the missing 'Connection: close' is not asserted there"]
 
